@@ -15,10 +15,10 @@ def count(evs, ev, **kw):
 
 
 PROPS = {
-    "C01": {"families": ["slowop", "regress", "core", "prio", "faults", "groups", "stop"],
+    "C01": {"families": ["conform", "witness", "slowop", "regress", "core", "prio", "faults", "groups", "stop"],
             "nontrivial_rule": "at least two successful record mutations by different writers or a takeover/delete",
             "mc": ["MC_Core2", "MC_Prio"]},
-    "C02": {"families": ["core", "stop", "health"],
+    "C02": {"families": ["conform", "witness", "core", "stop", "health"],
             "nontrivial_rule": "two or more instances started and at least one claim edge",
             "mc": ["MC_Core2"]},
     "C03": {"families": ["slowop", "faults", "validate"],
@@ -27,19 +27,19 @@ PROPS = {
     "C04": {"families": ["validate"],
             "nontrivial_rule": "a ValidateToken / ValidateTokenOrDemote call returned",
             "mc": ["MC_Faults"]},
-    "C05": {"families": ["slowop", "regress", "core", "prio", "faults", "health"],
+    "C05": {"families": ["conform", "witness", "slowop", "regress", "core", "prio", "faults", "health"],
             "nontrivial_rule": "two or more successful acquisitions (terms) in the trace",
             "mc": ["MC_Core2", "MC_Prio"]},
     "C06": {"families": ["vacancy", "faults", "stop"],
             "nontrivial_rule": "the record becomes vacant (delete, expiry) while another instance runs",
             "mc": ["MC_Faults"]},
-    "C07": {"families": ["regress", "core", "stop"],
+    "C07": {"families": ["conform", "witness", "regress", "core", "stop"],
             "nontrivial_rule": "a term lasting at least two successful refreshes with a second instance or a stop in the trace",
             "mc": ["MC_Core2"]},
-    "C08": {"families": ["slowop", "regress", "core", "faults", "health", "conn", "stop", "prio"],
+    "C08": {"families": ["conform", "witness", "slowop", "regress", "core", "faults", "health", "conn", "stop", "prio"],
             "nontrivial_rule": "at least one promotion and one loss of leadership",
             "mc": ["MC_Core2", "MC_Faults"]},
-    "C09": {"families": ["stop", "core", "conn"],
+    "C09": {"families": ["conform", "witness", "stop", "core", "conn"],
             "nontrivial_rule": "a stop call with a store operation of that instance in flight or a leader being stopped",
             "mc": ["MC_Core2"]},
     "C10": {"families": ["slowop", "prio", "regress"],
@@ -54,10 +54,10 @@ PROPS = {
     "C13": {"families": ["slowop", "regress", "validate", "faults"],
             "nontrivial_rule": "an outside write or delete of the record happens while instances run",
             "mc": ["MC_Faults"]},
-    "C18": {"families": ["slowop", "regress", "core", "stop", "faults", "prio"],
+    "C18": {"families": ["conform", "witness", "slowop", "regress", "core", "stop", "faults", "prio"],
             "nontrivial_rule": "snapshots of at least one leader and one non-leader state",
             "mc": ["MC_Core2"]},
-    "C19": {"families": ["slowop", "regress", "core", "faults", "health", "conn", "stop"],
+    "C19": {"families": ["conform", "witness", "slowop", "regress", "core", "faults", "health", "conn", "stop"],
             "nontrivial_rule": "a promotion whose term ends inside the trace",
             "mc": ["MC_Core2"]},
 }
